@@ -143,7 +143,7 @@ func (w *World) stringerVC(st *stringerType, prop string) (res *FuncResult) {
 	iv := smtName("p!i!0")
 	vc.declare(iv, bvSort(wd))
 	fr.vals[p] = Val{T: p.Type(), L: []string{iv}}
-	_, out := vc.execBody(fr, state)
+	rets, out := vc.execBody(fr, state)
 	if out == nil {
 		vc.unsupported("String method never returns")
 	}
@@ -155,24 +155,74 @@ func (w *World) stringerVC(st *stringerType, prop string) (res *FuncResult) {
 	vals := append([]uint64(nil), st.order...)
 	sort.Slice(vals, func(a, b int) bool { return vals[a] < vals[b] })
 	var namesSubs, covSubs []*SubGoal
+	// one ground sub-goal per constant value, on the merged return value
+	r := rets[0]
 	for _, rs := range fr.retVals {
-		r := rs.vals[0]
-		var notAny []string
-		for _, v := range vals {
-			is := eq(iv, bvLit(wd, v))
-			notAny = append(notAny, not(is))
-			var alts []string
-			for _, n := range st.values[v] {
-				alts = append(alts, vc.strEq(r, vc.constVal(strT, constant.MakeString(n))))
-			}
-			// one ground sub-goal per constant value and return site
-			namesSubs = append(namesSubs, &SubGoal{Prefix: len(vc.script), Cond: and(rs.st.cond, is), Goal: or(alts...)})
+		vc.needStrContent(rs.vals[0].L[0]) // content axioms of the literal results behind the merged value
+	}
+	var notAny []string
+	for _, v := range vals {
+		is := eq(iv, bvLit(wd, v))
+		notAny = append(notAny, not(is))
+		var alts []string
+		for _, n := range st.values[v] {
+			alts = append(alts, vc.strEq(r, vc.constVal(strT, constant.MakeString(n))))
 		}
-		covSubs = append(covSubs, &SubGoal{Prefix: len(vc.script), Cond: rs.st.cond, Goal: imp(and(notAny...), vc.strEq(r, def))})
+		namesSubs = append(namesSubs, &SubGoal{Prefix: len(vc.script), Cond: and(out.cond, is), Goal: or(alts...)})
+	}
+	for _, rs := range fr.retVals {
+		covSubs = append(covSubs, &SubGoal{Prefix: len(vc.script), Cond: rs.st.cond, Goal: imp(and(notAny...), vc.strEq(rs.vals[0], def))})
 	}
 	vc.obligeSubs("post", "names", namesSubs, false, fn.Pos(), []string{prop})
-	vc.obls[len(vc.obls)-1].Batch = fn.String()
+	namesObl := vc.obls[len(vc.obls)-1]
 	vc.obligeSubs("post", "other-values", covSubs, false, fn.Pos(), []string{prop})
+	otherObl := vc.obls[len(vc.obls)-1]
+	// replay tests: the contract instances executed on the real method
+	var tb strings.Builder
+	fmt.Fprintf(&tb, "package fit\n\nimport (\n\t\"fmt\"\n\t\"testing\"\n)\n\nvar _ = fmt.Sprint\n\nfunc TestGovcReplay(govcT *testing.T) {\n\tnamed := map[%s][]string{\n", tname)
+	for _, v := range vals {
+		fmt.Fprintf(&tb, "\t\t%d: {", v)
+		for _, n := range st.values[v] {
+			fmt.Fprintf(&tb, "%q, ", n)
+		}
+		tb.WriteString("},\n")
+	}
+	tb.WriteString("\t}\n")
+	head := tb.String()
+	namesObl.ReplaySrc = head + fmt.Sprintf(`	for v, names := range named {
+		got, ok := v.String(), false
+		for _, n := range names {
+			ok = ok || got == n
+		}
+		if !ok {
+			govcT.Errorf("GOVC-REPRODUCED: %s(%%d).String() = %%q, the constant is named %%q\n", uint64(v), got, names)
+		}
+	}
+}
+`, tname)
+	limit := uint64(1) << uint(wd)
+	if wd > 16 {
+		limit = 1 << 20 // sampled: the low 2^20 values and the neighbours of the constants
+	}
+	otherObl.ReplaySrc = head + fmt.Sprintf(`	check := func(v %s) {
+		if _, isNamed := named[v]; isNamed {
+			return
+		}
+		if got, want := v.String(), fmt.Sprintf("%s(%%d)", int64(v)); got != want {
+			govcT.Errorf("GOVC-REPRODUCED: %s(%%d).String() = %%q, want %%q (no constant has this value)\n", int64(v), got, want)
+		}
+	}
+	for x := uint64(0); x < %d; x++ {
+		check(%s(x))
+	}
+	for v := range named {
+		check(v - 1)
+		check(v + 1)
+	}
+	check(^%s(0))
+}
+`, tname, tname, tname, limit, tname, tname)
+
 	return res
 }
 
